@@ -177,6 +177,84 @@ def run (np : Nat) : St → List Event → St × List Entry
     let r2 := run np r.1 evs
     (r2.1, r.2 ++ r2.2)
 
+/-! ## The process and its state file (`save_state` / `load_state` made explicit)
+
+The slice machine above keeps one `Persist` per slice boundary, on the grounds that `start_slice`
+always ends with `save_state`.  The machine below does not assume that: it carries the in-memory
+crawler and the JSON state file separately, writes the file exactly where the code calls
+`save_state` (end of `start_slice`; `stopService`), and builds a new crawler with `load_state` after
+a kill / restart.  `Tahoe.C27.state_file_tracks_memory` and `proc_refines_slice_machine` then PROVE
+that the file always equals the in-memory progress (incl. `last-complete-bucket`) and that both
+machines make the same `process_bucket` calls.
+
+Transcribed: `save_state` stores `last-complete-prefix = None if index == -1 else prefixes[index]`
+(here: the index itself), `load_state` maps it back with `self.prefixes.index(lcp)` and the loop
+restarts at `index + 1`; a missing/unreadable file is the default state (`except` branch). -/
+
+/-- the four keys of the JSON state file the base class owns; `lcp` is the index of
+    "last-complete-prefix" in `self.prefixes` (`none` = JSON null) -/
+structure FileState where
+  cur : Option Nat
+  lcf : Option Nat
+  lcp : Option Nat
+  lcb : Option Nat
+  deriving DecidableEq, Repr
+
+/-- `save_state` (the part that concerns the base class) -/
+def saveState (p : Persist) : FileState :=
+  { cur := p.cur, lcf := p.lcf, lcp := if p.next = 0 then none else some (p.next - 1), lcb := p.lcb }
+
+/-- `load_state` on an existing file: `last_complete_prefix_index = prefixes.index(lcp)` (or -1),
+    `bucket_cache = (None, [])` -/
+def loadState (f : FileState) : St :=
+  { p := { cur := f.cur, lcf := f.lcf, next := (match f.lcp with | none => 0 | some i => i + 1), lcb := f.lcb },
+    cache := none }
+
+/-- `ShareCrawler.__init__` → `load_state`: no (readable) file gives the default state -/
+def loadFile : Option FileState → St
+  | none => init
+  | some f => loadState f
+
+/-- a crawler process together with the state file on disk -/
+structure Proc where
+  mem : St
+  file : Option FileState
+  deriving DecidableEq, Repr
+
+def procInit : Proc := { mem := init, file := none }
+
+inductive PEvent where
+  | slice (ls : Nat → List Nat) (o : List Bool)
+  | killed (ls : Nat → List Nat) (o : List Bool) (k : Nat)
+  /-- the process disappears between two slices; a new one is started -/
+  | restart
+  /-- orderly `stopService()` (which calls `save_state`) between two slices, then a new process -/
+  | stop
+
+/-- the same schedule for the slice machine -/
+def PEvent.toEvent : PEvent → Event
+  | .slice ls o => .slice ls o
+  | .killed ls o k => .killed ls o k
+  | .restart => .restart
+  | .stop => .restart
+
+def stepProc (np : Nat) (P : Proc) : PEvent → Proc × List Entry
+  | .slice ls o =>
+    let r := slice np ls P.mem o
+    ({ mem := r.1, file := some (saveState r.1.p) }, r.2)
+  | .killed ls o k => ({ mem := loadFile P.file, file := P.file }, (slice np ls P.mem o).2.take k)
+  | .restart => ({ mem := loadFile P.file, file := P.file }, [])
+  | .stop =>
+    let f := some (saveState P.mem.p)
+    ({ mem := loadFile f, file := f }, [])
+
+def runProc (np : Nat) : Proc → List PEvent → Proc × List Entry
+  | P, [] => (P, [])
+  | P, ev :: evs =>
+    let r := stepProc np P ev
+    let r2 := runProc np r.1 evs
+    (r2.1, r.2 ++ r2.2)
+
 /-! ## Vocabulary of the C27 statements -/
 
 /-- Bucket `b` of prefix `p` is present in the listing of every slice (complete or killed) that
